@@ -5,6 +5,8 @@ import (
 	"fmt"
 	"math"
 	"strings"
+	"sync/atomic"
+	"time"
 
 	"github.com/c4pt0r/kvql"
 )
@@ -42,7 +44,29 @@ func errClass(err error) string {
 
 // runStatement plans and drains one statement.  PlanBatchSize is a global of the library and must
 // be set by the caller for the whole phase.
-func runStatement(q string, st kvql.Storage, batch bool, cache bool) (res *RunResult) {
+// statementTimeout bounds one statement: a plan that loops for ever inside a single Next/Batch call
+// must not hang the harness (the goroutine is abandoned; the process ends with the group).
+const statementTimeout = 20 * time.Second
+
+var abandonedStatements int32
+
+func runStatement(q string, st kvql.Storage, batch bool, cache bool) *RunResult {
+	if atomic.LoadInt32(&abandonedStatements) >= 8 {
+		// several statements already hang: do not start more spinning goroutines
+		return &RunResult{Panic: "no-termination (not run: earlier statements did not terminate)"}
+	}
+	done := make(chan *RunResult, 1)
+	go func() { done <- runStatementInline(q, st, batch, cache) }()
+	select {
+	case r := <-done:
+		return r
+	case <-time.After(statementTimeout):
+		atomic.AddInt32(&abandonedStatements, 1)
+		return &RunResult{Panic: fmt.Sprintf("no-termination: still running after %s", statementTimeout)}
+	}
+}
+
+func runStatementInline(q string, st kvql.Storage, batch bool, cache bool) (res *RunResult) {
 	res = &RunResult{}
 	defer func() {
 		if r := recover(); r != nil {
